@@ -1,17 +1,22 @@
 ID = "C10"
 LEVEL = "proof"
 TITLE = "The file store is durable: a restart shows exactly the mail that was there"
-LEVEL_TEXT = ("Coq theorems over the disk-level model of the file store, in which the store's state IS the disk: every "
-              "operation is a function of the disk alone, so a reopen is the identity on everything observable "
-              "(reopen_transparent, over all histories with reopens at any positions); on every reachable disk — after any "
-              "history, restarts and even crashes — every operation runs without a failing step and has exactly the effect of "
-              "the ordered-mailbox specification, including cap eviction (ops_continue); *partial*: a removed or purged message never "
-              "reappears PROVIDED no later delivery is issued its id (removed_stay_gone_partial; always so within one process "
-              "incarnation: removed_stay_gone_one_incarnation) — after a restart within the same second the id of a message that is "
-              "gone IS issued again (removed_stay_gone_refuted, open finding K-C10-id-reissued-after-restart, observed on the real "
-              "store on every run). The model is tied to the code by "
-              "histories with in-process reopens (file.New on the same path) and REAL process restarts (the driver re-executes "
-              "itself per segment, which resets the global id counter), compared with the model and with an ordered-map oracle.")
+LEVEL_TEXT = ("Coq theorems over the disk-level model of the file store. THE durability theorem is ops_continue (ops_continue_any_cap "
+              "for a cap that may change at every start-up): on every disk the store can ever leave behind — after any history of completed "
+              "and killed operations, i.e. after any number of stops and starts, which touch nothing but memory — every operation runs without a "
+              "failing step, leaves such a disk again, and acts exactly as the ordered-map operation on the OLD listing (same order, ids, "
+              "metadata, seen flags, sizes, content; ops_refine_ordered_map), deliveries keep the cap, the visit walk lists every non-empty "
+              "mailbox (visit_complete); filedisk_refines_storespec identifies that ordered map with StoreSpec. The property's clause 'after a "
+              "restart every mailbox lists the same messages in the same order with the same ids, metadata, flags, sizes and content' is "
+              "covered by ops_continue + the correspondence run: the model's state IS the disk, so in the model a reopen is the identity "
+              "(reopen_transparent holds by construction — it documents, it does not carry weight); that the REAL store object keeps nothing "
+              "else is what the correspondence run samples (state before = after every reopen / real restart, live-vs-fresh after every "
+              "operation, visit and retention on the reopened object, overlapping first reads). reopen_transparent_cached states what any "
+              "implementation WITH memory (cache, memo, remembered listing) must satisfy to be transparent: memory coherent with the disk after "
+              "every start and every item. *partial*: a removed or purged message never reappears PROVIDED no later delivery is issued its id "
+              "(removed_stay_gone_partial — the guard is the negation of the only failure mode; always so within one process incarnation: "
+              "removed_stay_gone_one_incarnation) — after a restart within the same second the id of a message that is gone IS issued again "
+              "(removed_stay_gone_refuted, open finding K-C10-id-reissued-after-restart, observed on the real store on every run).")
 LEVEL_NOTE = ("The theorems are about Model/FileDisk.v (hand-written model of pkg/storage/file); that the real Store keeps no mailbox "
               "state between calls is checked by the correspondence run, not proved; encoding/gob is a section variable with the "
               "round-trip hypothesis; the id generator is an input (any candidate list). TWO MODELS, ONE SPEC: the ordered map these "
@@ -50,9 +55,11 @@ RULE = ("hist: 5 fixed histories (the deliver / restart / deliver program of fin
 TRUSTED = ["encoding/gob round trip: dec (enc i) = Some i (section hypothesis)",
            "SHA-1 (HashMailboxName) does not collide on the mailbox names in use (hypothesis hash_inj of filedisk_refines_storespec)",
            "the real Store object holds no mailbox state between calls (sampled by the correspondence run: state before = state after every reopen)"]
-ASSUMPTIONS = ["no I/O errors", "one operation at a time per mailbox (C09 covers interleavings)",
+ASSUMPTIONS = ["no I/O errors",
+               "removed_stay_gone_one_incarnation's hypothesis never_generated holds in the code only if the LOCAL wall clock never shows the same second twice within one process (generatePrefix formats local time: a DST fall-back or a clock step backwards can repeat a second) and fewer than 10000 ids are generated per second", "one operation at a time per mailbox (C09 covers interleavings)",
                "fewer than 10000 deliveries per second per process (the id counter wraps at 10000)"]
-NOT_PROVED = ["removed_stay_gone_stmt (Proofs/FileDiskWitness.v): the unguarded statement 'a removed id never names a message of the mailbox again' is FALSE in the model and in the code (removed_stay_gone_refuted, open finding K-C10-id-reissued-after-restart); proved instead: removed_stay_gone_partial under never_reissued"]
+NOT_PROVED = ["visit_complete is completeness only: that the walk yields each mailbox AT MOST once is not proved (it needs a no-duplicate-keys invariant of the disk map); the correspondence run compares the walk with the set of non-empty mailboxes",
+              "removed_stay_gone_stmt (Proofs/FileDiskWitness.v): the unguarded statement 'a removed id never names a message of the mailbox again' is FALSE in the model and in the code (removed_stay_gone_refuted, open finding K-C10-id-reissued-after-restart); proved instead: removed_stay_gone_partial under never_reissued"]
 
 
 def nontrivial(kind, ins, outs):
